@@ -456,5 +456,8 @@ PROPS["C20"]["rules"] = PROPS["C20"]["rules"] + [rules_dd.rule_failure_tested_wi
 PROPS["C19"]["rules"] = PROPS["C19"]["rules"] + [rules_tools.rule_empty_keeps_attrs]
 PROPS["C19"]["explanation"] += " (EMPTYATTR) the exit hdiff takes for a data set without data still reaches the attribute comparison."
 
+PROPS["C18"]["rules"] = PROPS["C18"]["rules"] + [rules_idioms.rule_annotation_length_kept]
+PROPS["C18"]["explanation"] = PROPS["C18"]["explanation"].replace(" Not decided (value-level)", " (ANNLEN) an annotation is written with the length ANannlen reported, not with the length enlarged for reading. Not decided (value-level)")
+
 NOT_APPLICABLE = {}
 
